@@ -50,6 +50,10 @@ add("C33", "genrun", "generated worlds x generated per-file mutation plans; meta
     "The CLI built from /repo writes bindings for a generated world into a directory; a generated plan mutates files (delete, flip byte, append, LF->CRLF, binary, truncate, extra file); `--check` must succeed exactly when a writing run into a byte copy would change nothing, must leave names/bytes/mtimes untouched, must not create files elsewhere, and must attribute the first stale file to line endings exactly when it differs only in line endings. 600 process-level cases quick, all 8 backends.",
     "The oracle uses the same CLI binary in write mode (so generator statefulness such as C++/D reading the out-dir is handled); only the first stale file's message is judged, as the CLI stops there.")
 
+add("C29", "genrun", "generated worlds with adversarial doc comments -> Markdown generator; HTML tag scan (link nesting, href/id resolution) and verbatim-substring oracle over every doc line",
+    "20k generated worlds per quick run (docs on worlds, interfaces, types, fields, cases, functions with braces, `//`, HTML, markdown metacharacters, unique tokens) plus the corpus: the .html must not open an <a> inside an <a>, every href=\"#x\" needs an id=\"x\"; every non-blank doc line of every world-reachable item must occur verbatim in the .md. Found and fixed: exported interfaces lost their docs.",
+    "Doc comments generated here contain no links of their own; text is compared modulo surrounding whitespace, so indentation effects of doc text are not judged (the property allows whitespace changes).")
+
 PENDING_REASON = "check not built yet in this session (planned in DESIGN.md §4); not claimed until it exists and passes its sensitivity runs"
 
 def main():
@@ -101,7 +105,7 @@ def main():
 NA = {}
 HOOK_COMMITS = ["b827c12", "a6f2383"]
 ENGINES = [
-    {"name": "genrun", "path": "harness/genrun", "serves_properties": ["C15", "C16", "C33"], "kind_free_text": "tape-driven constructive WIT world generator (harness/witgen) + in-process drivers for all eight generators with panic capture and output collection"},
+    {"name": "genrun", "path": "harness/genrun", "serves_properties": ["C15", "C16", "C29", "C33"], "kind_free_text": "tape-driven constructive WIT world generator (harness/witgen) + in-process drivers for all eight generators with panic capture and output collection"},
     {"name": "abisim", "path": "harness/abisim", "serves_properties": ["C01", "C02", "C03", "C04"], "kind_free_text": "recording wit_bindgen_core::abi::Bindgen + instruction interpreter + independent reference canonical ABI (harness/refabi), driven by proptest"},
     {"name": "rtpbt", "path": "harness/rtpbt", "serves_properties": ["C24"], "kind_free_text": "proptest histories against wit_bindgen::rt allocation entry points with a tracking global allocator"},
     {"name": "corepbt", "path": "harness/corepbt", "serves_properties": ["C17", "C25", "C26", "C27", "C28", "C34"], "kind_free_text": "proptest harnesses over public items of wit-bindgen-core / wit-bindgen rt / wit-bindgen-test"},
